@@ -127,7 +127,7 @@ def run_decl(sc, own_classes, extra=None, second_build=True) -> Result:
     mons = own + others
     inj = DeathInjector(copy.deepcopy(sc["faults"]))
     mons.append(inj)
-    uni = Universe(root, Chooser(sched["seed"], mode=sched.get("mode", "seeded")), monitors=mons)
+    uni = Universe(root, Chooser(sched["seed"], mode=sched.get("mode", "seeded"), profile=sched.get("profile")), monitors=mons)
     w = uni.world
     files = render_decl(sc)
     ops = []
@@ -201,6 +201,8 @@ def shrink_decl(sc):
     if sc["schedule"].get("mode") != "calm":
         out = copy.deepcopy(sc)
         out["schedule"] = {"mode": "calm", "seed": 0}
+        if sc["schedule"].get("profile"):
+            out["schedule"]["profile"] = sc["schedule"]["profile"]
         yield out
     for k in range(len(sc["plans"]) - 1, -1, -1):
         if len(sc["plans"]) > 1:
